@@ -3,6 +3,10 @@
   little-endian integers, the minimal compact-size varint, byte vectors and generic
   vectors with the `MAX_VEC_SIZE` allocation guard.  Decoders have the shape
   `Bytes → Res (α × Bytes)` (value and unread rest = `deserialize_partial`).
+
+  Rust items transcribed here (read by tools/modelled_items.py): `read_varint`, `emit_varint`,
+  `VarInt::size`, `impl Encodable for VarInt`, `impl Decodable for VarInt`, `impl Encodable for Vec`,
+  `impl Decodable for Vec`, `deserialize_partial`, `deserialize`, `serialize`.
 -/
 import EV.Model.Bytes
 namespace EV.Codec
